@@ -387,9 +387,175 @@ def reextract(fn, recorded_defs, present):
     return k
 
 
+_NEG_OPS = {ast.In: ast.NotIn, ast.NotIn: ast.In, ast.Eq: ast.NotEq, ast.NotEq: ast.Eq, ast.Is: ast.IsNot, ast.IsNot: ast.Is, ast.Lt: ast.GtE, ast.GtE: ast.Lt, ast.Gt: ast.LtE, ast.LtE: ast.Gt}
+
+
+def _negate_test(t):
+    """Syntactic negation of a test where that is exact for every value (not for ordering comparisons of floats,
+    where NaN breaks `not (a < b) == (a >= b)`): `not x` <-> `x`, in / not in, == / !=, is / is not."""
+    import copy
+
+    if isinstance(t, ast.UnaryOp) and isinstance(t.op, ast.Not):
+        return copy.deepcopy(t.operand)
+    if isinstance(t, ast.Compare) and len(t.ops) == 1 and type(t.ops[0]) in (ast.In, ast.NotIn, ast.Eq, ast.NotEq, ast.Is, ast.IsNot):
+        n = copy.deepcopy(t)
+        n.ops = [_NEG_OPS[type(t.ops[0])]()]
+        return n
+    return ast.UnaryOp(op=ast.Not(), operand=copy.deepcopy(t))
+
+
+def hoist_common_branch_statements(fn):
+    """`if c: S; A else: S; B` -> `S; if c: A else: B` for a leading plain assignment S to a name that is spelled the
+    same in both branches, reads nothing the test reads-and-S-writes, and whose target the test does not read."""
+    k = 0
+    for _owner, blk in _blocks(fn):
+        i = 0
+        while i < len(blk):
+            st = blk[i]
+            if isinstance(st, ast.If) and st.body and st.orelse and len(st.body) > 1 and len(st.orelse) > 1:
+                moved = True
+                while moved and len(st.body) > 1 and len(st.orelse) > 1:
+                    moved = False
+                    for bi, b in enumerate(st.body):
+                        if not (isinstance(b, ast.Assign) and len(b.targets) == 1 and isinstance(b.targets[0], ast.Name)):
+                            continue
+                        x = b.targets[0].id
+                        match = [oi for oi, o in enumerate(st.orelse) if isinstance(o, ast.Assign) and ast.dump(o, annotate_fields=False) == ast.dump(b, annotate_fields=False)]
+                        if not match:
+                            continue
+                        oi = match[0]
+                        reads = {n.id for n in ast.walk(b.value) if isinstance(n, ast.Name)}
+                        # nothing before it in either branch writes what it reads or its target; the test does not read x
+                        before = st.body[:bi] + st.orelse[:oi]
+                        written = {n.id for s_ in before for n in ast.walk(s_) if isinstance(n, ast.Name) and isinstance(n.ctx, ast.Store)}
+                        if (written & (reads | {x})) or any(isinstance(n, ast.Name) and n.id == x for n in ast.walk(st.test)) or any(isinstance(n, ast.Name) and n.id == x for s_ in before for n in ast.walk(s_)):
+                            continue
+                        del st.body[bi]
+                        del st.orelse[oi]
+                        blk.insert(i, b)
+                        i += 1
+                        k += 1
+                        moved = True
+                        break
+            i += 1
+    return k
+
+
+def fold_conditional_defs(fn, recorded_defs, recorded_names=()):
+    """Toward the recorded conditional expressions: (1) `x = D` immediately followed by `if c: x = E` (no else) becomes
+    `x = E if c else D` when the record defines x by a conditional expression; (2) a conditional expression whose
+    test is the exact negation of the recorded one is turned round (`B if not c else A` -> `A if c else B`).
+    Both are identities for side-effect-free operands."""
+    import copy
+
+    rec = {}
+    for name, dump in recorded_defs:
+        if dump.startswith("IfExp("):
+            rec[name] = dump
+    known = set(recorded_names)
+    k = 0
+    for _owner, blk in _blocks(fn):
+        i = 0
+        while i < len(blk):
+            st = blk[i]
+            # `if c: x = E` / `else: x = D`  ->  `x = E if c else D`
+            if isinstance(st, ast.If) and len(st.body) == 1 and len(st.orelse) == 1 and all(isinstance(b, ast.Assign) and len(b.targets) == 1 and isinstance(b.targets[0], ast.Name) for b in (st.body[0], st.orelse[0])) and st.body[0].targets[0].id == st.orelse[0].targets[0].id and (st.body[0].targets[0].id in rec or st.body[0].targets[0].id not in known):
+                x = st.body[0].targets[0].id
+                new = ast.copy_location(ast.Assign(targets=[ast.Name(id=x, ctx=ast.Store())], value=ast.IfExp(test=copy.deepcopy(st.test), body=copy.deepcopy(st.body[0].value), orelse=copy.deepcopy(st.orelse[0].value))), st)
+                ast.fix_missing_locations(new)
+                blk[i] = new
+                st = new
+                k += 1
+            if isinstance(st, ast.Assign) and len(st.targets) == 1 and isinstance(st.targets[0], ast.Name) and st.targets[0].id not in known and isinstance(st.value, ast.IfExp):
+                # a new local bound by a conditional expression that is the mirror image of a recorded one: turn it
+                # round, so that the renaming step can recognise it by its binding shape
+                flipped = ast.IfExp(test=_negate_test(st.value.test), body=copy.deepcopy(st.value.orelse), orelse=copy.deepcopy(st.value.body))
+                fd = ast.dump(flipped, annotate_fields=False)
+                present = {n.id for n in ast.walk(fn) if isinstance(n, ast.Name)}
+                if any(d == fd and nm not in present for nm, d in rec.items()):
+                    st.value = ast.copy_location(flipped, st.value)
+                    ast.fix_missing_locations(st)
+                    k += 1
+            if isinstance(st, ast.Assign) and len(st.targets) == 1 and isinstance(st.targets[0], ast.Name) and st.targets[0].id in rec:
+                x = st.targets[0].id
+                nxt = blk[i + 1] if i + 1 < len(blk) else None
+                if not isinstance(st.value, ast.IfExp) and isinstance(nxt, ast.If) and not nxt.orelse and len(nxt.body) == 1 and isinstance(nxt.body[0], ast.Assign) and len(nxt.body[0].targets) == 1 and isinstance(nxt.body[0].targets[0], ast.Name) and nxt.body[0].targets[0].id == x and not any(isinstance(n, ast.Name) and n.id == x for n in ast.walk(nxt.test)) and not any(isinstance(n, ast.Name) and n.id == x for n in ast.walk(nxt.body[0].value)):
+                    new = ast.copy_location(ast.Assign(targets=[ast.Name(id=x, ctx=ast.Store())], value=ast.IfExp(test=copy.deepcopy(nxt.test), body=copy.deepcopy(nxt.body[0].value), orelse=copy.deepcopy(st.value))), st)
+                    ast.fix_missing_locations(new)
+                    blk[i : i + 2] = [new]
+                    st = new
+                    k += 1
+                if isinstance(st.value, ast.IfExp) and ast.dump(st.value, annotate_fields=False) != rec[x]:
+                    flipped = ast.IfExp(test=_negate_test(st.value.test), body=copy.deepcopy(st.value.orelse), orelse=copy.deepcopy(st.value.body))
+                    if ast.dump(flipped, annotate_fields=False) == rec[x]:
+                        st.value = ast.copy_location(flipped, st.value)
+                        ast.fix_missing_locations(st)
+                        k += 1
+            i += 1
+    return k
+
+
+def matmul_to_recorded_form(fn, recorded_defs):
+    """`a @ b` -> `matmul(a, b)` in a function whose recorded definitions use the call form and no `@` (and the other
+    way round): the two spellings are the same operation."""
+    dumps = " ".join(d for _n, d in recorded_defs)
+    uses_call, uses_op = "Name('matmul'" in dumps, "MatMult()" in dumps
+    if uses_call == uses_op:
+        return 0
+    k = [0]
+
+    class M(ast.NodeTransformer):
+        def visit_BinOp(self, n):
+            self.generic_visit(n)
+            if uses_call and isinstance(n.op, ast.MatMult):
+                k[0] += 1
+                return ast.copy_location(ast.Call(func=ast.Name(id="matmul", ctx=ast.Load()), args=[n.left, n.right], keywords=[]), n)
+            return n
+
+        def visit_Call(self, n):
+            self.generic_visit(n)
+            if uses_op and isinstance(n.func, ast.Name) and n.func.id == "matmul" and len(n.args) == 2 and not n.keywords:
+                k[0] += 1
+                return ast.copy_location(ast.BinOp(left=n.args[0], op=ast.MatMult(), right=n.args[1]), n)
+            return n
+
+    for i, st in enumerate(list(fn.body)):
+        fn.body[i] = M().visit(st)
+    ast.fix_missing_locations(fn)
+    return k[0]
+
+
+def split_ret_tuples(fn):
+    """`if c: v = (A1, B1) else: v = (A2, B2)` ... `x, y = v` (v a new name used for nothing else) becomes
+    `x, y = A1, B1` / `x, y = A2, B2` in the branches - the shape an inlined helper with several `return a, b`
+    leaves behind."""
+    import copy
+
+    k = 0
+    for _owner, blk in _blocks(fn):
+        for i, st in enumerate(blk):
+            if not (isinstance(st, ast.Assign) and len(st.targets) == 1 and isinstance(st.targets[0], ast.Tuple) and isinstance(st.value, ast.Name)):
+                continue
+            v = st.value.id
+            loads = _loads(fn, v)
+            stores = [n for n in ast.walk(fn) if isinstance(n, ast.Assign) and len(n.targets) == 1 and isinstance(n.targets[0], ast.Name) and n.targets[0].id == v]
+            all_stores = _stores(fn, v)
+            arity = len(st.targets[0].elts)
+            if len(loads) != 1 or len(stores) != len(all_stores) or not stores or not all(isinstance(n.value, ast.Tuple) and len(n.value.elts) == arity for n in stores):
+                continue
+            if i == 0 or not any(any(x is s_ for x in ast.walk(blk[i - 1])) for s_ in stores):
+                continue
+            for s_ in stores:
+                s_.targets = [copy.deepcopy(st.targets[0])]
+            del blk[i]
+            k += 1
+            break
+    return k
+
+
 # value-only library calls: repeating one of them is not observable (used to allow multi-use aliases to be inlined)
 PURE_CALLS = {
-    "max", "min", "sum", "abs", "len", "float", "int", "bool", "round", "sorted", "tuple", "list", "set", "dict", "range", "zip", "enumerate", "isinstance",
+    "slice", "max", "min", "sum", "abs", "len", "float", "int", "bool", "round", "sorted", "tuple", "list", "set", "dict", "range", "zip", "enumerate", "isinstance",
     "norm", "dot", "vdot", "cross", "outer", "matmul", "sqrt", "sin", "cos", "tan", "arcsin", "arccos", "arctan", "arctan2", "sinh", "cosh", "arcsinh", "exp", "log", "log10", "floor", "ceil", "fabs", "sign",
     "array", "asarray", "zeros", "ones", "zeros_like", "ones_like", "empty_like", "eye", "diag", "diagflat", "concatenate", "vstack", "hstack", "reshape", "ravel", "flatten", "squeeze", "transpose", "copy", "astype",
     "amax", "amin", "nanmax", "nanmin", "argmax", "argmin", "any", "all", "nonzero", "flatnonzero", "where", "clip", "remainder", "mod", "fmod", "isclose", "allclose", "mean", "average", "trace", "det", "inv",
@@ -602,10 +768,11 @@ def _helper_shape(fn):
     rets = [n for n in ast.walk(fn) if isinstance(n, ast.Return)]
     if len(rets) > 1 or (rets and rets[0] is not body[-1]):
         # early returns in if / else structures: rewritten to a single trailing return of a result variable
-        conv = _single_exit(body)
+        rname = "_ret_" + fn.name.strip("_")
+        conv = _single_exit(body, rname)
         if conv is None:
             return None
-        return ("stmts", conv, ast.Name(id="_ret", ctx=ast.Load()))
+        return ("stmts", conv, ast.Name(id=rname, ctx=ast.Load()))
     ret = rets[0].value if rets else None
     stmts = body[:-1] if rets else body
     if all(isinstance(b, ast.Assign) and len(b.targets) == 1 and isinstance(b.targets[0], ast.Name) for b in stmts) and ret is not None:
@@ -615,7 +782,7 @@ def _helper_shape(fn):
     return ("stmts", stmts, ret)
 
 
-def _single_exit(body):
+def _single_exit(body, rname="_ret"):
     """Equivalent statement list with every `return V` replaced by `_ret = V` and control flow restructured so that
     nothing runs after a taken return (early returns inside if / else only); None when a return sits in a loop, try
     or with.  The caller appends `return _ret`."""
@@ -629,7 +796,7 @@ def _single_exit(body):
         for i, st in enumerate(stmts):
             if isinstance(st, ast.Return):
                 val = copy.deepcopy(st.value) if st.value is not None else ast.Constant(value=None)
-                out.append(ast.copy_location(ast.Assign(targets=[ast.Name(id="_ret", ctx=ast.Store())], value=val), st))
+                out.append(ast.copy_location(ast.Assign(targets=[ast.Name(id=rname, ctx=ast.Store())], value=val), st))
                 return out, True
             if isinstance(st, ast.If) and has_ret(st):
                 rest = list(stmts[i + 1 :])
@@ -664,7 +831,7 @@ def _single_exit(body):
         return None
     out, done = res
     if not done:
-        out = [ast.copy_location(ast.Assign(targets=[ast.Name(id="_ret", ctx=ast.Store())], value=ast.Constant(value=None)), body[0])] + out
+        out = [ast.copy_location(ast.Assign(targets=[ast.Name(id=rname, ctx=ast.Store())], value=ast.Constant(value=None)), body[0])] + out
     for x in out:
         ast.fix_missing_locations(x)
     return out
@@ -828,7 +995,13 @@ def inline_new_helpers(project, rec):
                             ren[p_] = ast.Name(id=nm, ctx=ast.Load())
                             if rebound:
                                 sren[p_] = nm
-                    hl = {n.id for n in ast.walk(hfi.node) if isinstance(n, ast.Name) and isinstance(n.ctx, (ast.Store, ast.Del))} - set(ps)
+                    comp_bound = {x.id for c_ in ast.walk(hfi.node) if isinstance(c_, ast.comprehension) for x in ast.walk(c_.target) if isinstance(x, ast.Name)}
+                    plain_bound = {n.id for n in ast.walk(hfi.node) if isinstance(n, ast.Name) and isinstance(n.ctx, (ast.Store, ast.Del))} - comp_bound
+                    arg_names = {x.id for a_ in b.values() for x in ast.walk(a_) if isinstance(x, ast.Name)}
+                    # a comprehension's own variable lives in the comprehension's scope: no clash with the caller's names
+                    # unless a substituted argument mentions the same spelling
+                    keep_comp = {n for n in comp_bound if n not in plain_bound and n not in arg_names}
+                    hl = {n.id for n in ast.walk(hfi.node) if isinstance(n, ast.Name) and isinstance(n.ctx, (ast.Store, ast.Del))} - set(ps) - keep_comp
                     lren = {n: (f"{n}_h{_H[0]}" if n in used else n) for n in hl}
                     direct = None
                     if form == "assign" and isinstance(st.targets[0], ast.Name) and isinstance(sh[2], ast.Name) and sh[2].id in hl:
@@ -926,6 +1099,7 @@ def normalise(project, path=PINNED):
         rec_names = {x[0] for x in rec_locals}
         rec_defs = [tuple(x) for x in rec[q].get("defs", [])]
         try:
+            matmul_to_recorded_form(fi.node, rec_defs)
             for _round in range(12):
                 progress = 0
                 m = plan(fi.node, rec_locals)
@@ -950,7 +1124,13 @@ def normalise(project, path=PINNED):
                     stats["locals_inlined"] += k
                     progress += k
                 if not progress:
+                    progress += split_ret_tuples(fi.node)
+                if not progress:
                     progress += fold_list_concat(fi.node)
+                if not progress:
+                    progress += hoist_common_branch_statements(fi.node)
+                if not progress:
+                    progress += fold_conditional_defs(fi.node, rec_defs, rec_names)
                 if not progress:
                     break
                 if _round == 0:
@@ -1027,6 +1207,26 @@ def fold_list_concat(fn):
             if isinstance(n.op, ast.Add) and isinstance(n.left, ast.List) and isinstance(n.right, ast.List) and not any(isinstance(x, ast.Starred) for x in n.left.elts + n.right.elts):
                 n_fold[0] += 1
                 return ast.copy_location(ast.List(elts=n.left.elts + n.right.elts, ctx=ast.Load()), n)
+            return n
+
+        def visit_Subscript(self, n):
+            self.generic_visit(n)
+            sl = n.slice
+            if isinstance(sl, ast.Call) and isinstance(sl.func, ast.Name) and sl.func.id == "slice" and not sl.keywords and 1 <= len(sl.args) <= 3:
+                # x[slice(a, b, c)] is x[a:b:c]
+                a = list(sl.args)
+                if len(a) == 1:
+                    lo, hi, stp = None, a[0], None
+                elif len(a) == 2:
+                    lo, hi, stp = a[0], a[1], None
+                else:
+                    lo, hi, stp = a
+
+                def nn(x):
+                    return None if (x is None or (isinstance(x, ast.Constant) and x.value is None)) else x
+
+                n_fold[0] += 1
+                n.slice = ast.copy_location(ast.Slice(lower=nn(lo), upper=nn(hi), step=nn(stp)), sl)
             return n
 
     for i, st in enumerate(list(fn.body)):
